@@ -43,13 +43,13 @@ VARIABLES
     inactives, actives, reads, readsLeft, rinflight,
     faults, cancelled,
     \* history (observation only)
-    acc, begun, before, returned, okset, accAtClose, closeRet, lateBegun, drainedOK
+    acc, begun, before, returned, okset, accAtClose, closeRet, lateBegun, drainedOK, fatal
 
 vars == <<pc, stack, opi, wret, queue, waitq, running, closed, closeErr, werr,
           ctxDone, tclosed, tcloses, tlog, flushed, batch, nexts, mutex, mwait,
           polls, carg, inactives, actives, reads, readsLeft, rinflight, faults,
           cancelled, acc, begun, before, returned, okset, accAtClose, closeRet,
-          lateBegun, drainedOK>>
+          lateBegun, drainedOK, fatal>>
 
 Senders  == {SenderIds[i] : i \in 1..Len(SenderIds)}
 SrvProcs == {"V", "R"}
@@ -113,7 +113,7 @@ Init ==
     /\ cancelled = {}
     /\ acc = <<>> /\ begun = {} /\ before = I0.before
     /\ returned = {} /\ okset = {} /\ accAtClose = {} /\ closeRet = FALSE
-    /\ lateBegun = {} /\ drainedOK = TRUE
+    /\ lateBegun = {} /\ drainedOK = TRUE /\ fatal = FALSE
 
 \* the same, on the primed variables
 Reset ==
@@ -133,7 +133,7 @@ Reset ==
     /\ cancelled' = {}
     /\ acc' = <<>> /\ begun' = {} /\ before' = I0.before
     /\ returned' = {} /\ okset' = {} /\ accAtClose' = {} /\ closeRet' = FALSE
-    /\ lateBegun' = {} /\ drainedOK' = TRUE
+    /\ lateBegun' = {} /\ drainedOK' = TRUE /\ fatal' = FALSE
 
 -----------------------------------------------------------------------------
 (* Helpers: a set of writers finishing their current op in one step.  fin is *)
@@ -206,7 +206,7 @@ WEnter(w) ==
             /\ lateBegun' = IF closeRet THEN lateBegun \cup {Cur(w)} ELSE lateBegun
     /\ UNCHANGED <<stack, queue, waitq, running, closed, closeErr, werr, ctxDone, tclosed,
                    tcloses, tlog, flushed, batch, nexts, polls, carg, inactives, actives,
-                   reads, readsLeft, rinflight, faults, cancelled, acc, accAtClose, closeRet, drainedOK>>
+                   reads, readsLeft, rinflight, faults, cancelled, acc, accAtClose, closeRet, drainedOK, fatal>>
     /\ IF \/ FixClosed /\ closed = 1
           \/ ~FixClosed /\ Kind(w) \in {"W1", "Wv", "M"} /\ closeErr \notin {"unset", "nil"}
        THEN /\ FinishAll(One(w, "closed"))
@@ -229,7 +229,7 @@ WSelect(w) ==
     /\ UNCHANGED <<stack, running, closed, closeErr, werr, ctxDone, tclosed, tcloses, tlog,
                    flushed, batch, nexts, mutex, mwait, polls, carg, inactives, actives,
                    reads, readsLeft, rinflight, faults, cancelled, begun, before, accAtClose,
-                   closeRet, lateBegun, drainedOK>>
+                   closeRet, lateBegun, drainedOK, fatal>>
     /\ \/ /\ CallerDone(w)
           /\ FinishAll(One(w, "ctx")) /\ pc' = PcAfter(One(w, NextWPc(w)))
           /\ UNCHANGED <<queue, waitq, acc>>
@@ -253,7 +253,7 @@ WCas(w) ==
     /\ UNCHANGED <<stack, queue, waitq, closed, closeErr, werr, ctxDone, tclosed, tcloses, tlog,
                    flushed, batch, mutex, mwait, polls, carg, inactives, actives, reads,
                    readsLeft, rinflight, faults, cancelled, acc, begun, before, accAtClose,
-                   closeRet, lateBegun, drainedOK>>
+                   closeRet, lateBegun, drainedOK, fatal>>
     /\ IF running = 0
        THEN /\ nexts <= Len(SenderIds)
             /\ running' = 1 /\ nexts' = nexts + 1
@@ -266,7 +266,7 @@ TWrite(w) ==
     /\ w \in Writers /\ pc[w] \in {"t.write", "t.writev"}
     /\ UNCHANGED <<stack, queue, waitq, running, closed, closeErr, werr, ctxDone, tclosed, tcloses,
                    flushed, batch, nexts, polls, carg, inactives, actives, reads, readsLeft,
-                   rinflight, faults, cancelled, begun, before, accAtClose, closeRet, lateBegun, drainedOK>>
+                   rinflight, faults, cancelled, begun, before, accAtClose, closeRet, lateBegun, drainedOK, fatal>>
     /\ IF tclosed
        THEN /\ FinishAll(One(w, "terr")) /\ UNCHANGED <<tlog, acc>>
             /\ Unlock(w, One(w, NextWPc(w)))
@@ -281,13 +281,13 @@ TWriteFail(w) ==
     /\ Unlock(w, One(w, NextWPc(w)))
     /\ UNCHANGED <<stack, queue, waitq, running, closed, closeErr, werr, ctxDone, tclosed, tcloses,
                    tlog, flushed, batch, nexts, polls, carg, inactives, actives, reads, readsLeft,
-                   rinflight, cancelled, acc, begun, before, accAtClose, closeRet, lateBegun, drainedOK>>
+                   rinflight, cancelled, acc, begun, before, accAtClose, closeRet, lateBegun, drainedOK, fatal>>
 
 TWFlush(w) ==
     /\ w \in Writers /\ pc[w] = "t.flush"
     /\ UNCHANGED <<stack, queue, waitq, running, closed, closeErr, werr, ctxDone, tclosed, tcloses,
                    tlog, batch, nexts, polls, carg, inactives, actives, reads, readsLeft,
-                   rinflight, faults, cancelled, acc, begun, before, accAtClose, closeRet, lateBegun, drainedOK>>
+                   rinflight, faults, cancelled, acc, begun, before, accAtClose, closeRet, lateBegun, drainedOK, fatal>>
     /\ IF tclosed /\ flushed < Len(tlog)
        THEN /\ FinishAll(One(w, "terr")) /\ UNCHANGED flushed
        ELSE /\ FinishAll(One(w, "ok")) /\ flushed' = Len(tlog)
@@ -300,7 +300,7 @@ TWFlushFail(w) ==
     /\ Unlock(w, One(w, NextWPc(w)))
     /\ UNCHANGED <<stack, queue, waitq, running, closed, closeErr, werr, ctxDone, tclosed, tcloses,
                    tlog, flushed, batch, nexts, polls, carg, inactives, actives, reads, readsLeft,
-                   rinflight, cancelled, acc, begun, before, accAtClose, closeRet, lateBegun, drainedOK>>
+                   rinflight, cancelled, acc, begun, before, accAtClose, closeRet, lateBegun, drainedOK, fatal>>
 
 \* environment: a caller context of writer w expires
 CtxCancel(w) ==
@@ -309,7 +309,7 @@ CtxCancel(w) ==
     /\ cancelled' = cancelled \cup {w}
     /\ UNCHANGED <<stack, queue, running, closed, closeErr, werr, ctxDone, tclosed, tcloses, tlog,
                    flushed, batch, nexts, mutex, mwait, polls, carg, inactives, actives, reads,
-                   readsLeft, rinflight, faults, acc, begun, before, accAtClose, closeRet, lateBegun, drainedOK>>
+                   readsLeft, rinflight, faults, acc, begun, before, accAtClose, closeRet, lateBegun, drainedOK, fatal>>
     /\ IF pc[w] = "w.blocked" /\ Ctx(w) = "mortal"
        THEN /\ waitq' = SelectSeq(waitq, LAMBDA x : x # w)
             /\ FinishAll(One(w, "ctx")) /\ pc' = PcAfter(One(w, NextWPc(w)))
@@ -329,14 +329,14 @@ XStart(p) ==
     /\ UNCHANGED <<stack, queue, waitq, running, closed, closeErr, werr, ctxDone, tclosed, tcloses,
                    tlog, flushed, nexts, mutex, mwait, polls, carg, inactives, actives, reads,
                    readsLeft, rinflight, faults, cancelled, acc, begun, before, accAtClose, closeRet,
-                   lateBegun, drainedOK>>
+                   lateBegun, drainedOK, fatal>>
 
 SPoll(p) ==
     /\ pc[p] = "s.poll"
     /\ NoFinish
     /\ UNCHANGED <<stack, running, closed, closeErr, werr, ctxDone, tclosed, tcloses, tlog, flushed,
                    nexts, mutex, mwait, polls, carg, inactives, actives, reads, readsLeft, rinflight,
-                   faults, cancelled, begun, before, accAtClose, closeRet, lateBegun, drainedOK>>
+                   faults, cancelled, begun, before, accAtClose, closeRet, lateBegun, drainedOK, fatal>>
     /\ IF queue # <<>>
        THEN LET nb == Append(batch[p], Head(queue))
                 np == IF Len(nb) < BatchCap THEN "s.poll" ELSE "t.writev"
@@ -358,7 +358,7 @@ TWritev(p) ==
     /\ batch' = [batch EXCEPT ![p] = <<>>]
     /\ UNCHANGED <<stack, queue, waitq, running, closed, closeErr, werr, ctxDone, tclosed, tcloses,
                    flushed, nexts, mutex, mwait, polls, carg, inactives, actives, reads, readsLeft,
-                   rinflight, faults, cancelled, acc, begun, before, accAtClose, closeRet, lateBegun, drainedOK>>
+                   rinflight, faults, cancelled, acc, begun, before, accAtClose, closeRet, lateBegun, drainedOK, fatal>>
     /\ IF tclosed
        THEN /\ UNCHANGED tlog /\ pc' = PcAfter(One(p, "s.fail"))
        ELSE /\ tlog' = tlog \o batch[p] /\ pc' = PcAfter(One(p, "s.len"))
@@ -372,6 +372,7 @@ TWritevFail(p) ==
     /\ UNCHANGED <<stack, queue, waitq, running, closed, closeErr, werr, ctxDone, tclosed, tcloses,
                    tlog, flushed, nexts, mutex, mwait, polls, carg, inactives, actives, reads, readsLeft,
                    rinflight, cancelled, acc, begun, before, accAtClose, closeRet, lateBegun, drainedOK>>
+    /\ fatal' = (fatal \/ closed = 0)
 
 SLen(p) ==
     /\ pc[p] = "s.len"
@@ -380,14 +381,14 @@ SLen(p) ==
     /\ UNCHANGED <<stack, queue, waitq, running, closed, closeErr, werr, ctxDone, tclosed, tcloses,
                    tlog, flushed, batch, nexts, mutex, mwait, polls, carg, inactives, actives, reads,
                    readsLeft, rinflight, faults, cancelled, acc, begun, before, accAtClose, closeRet,
-                   lateBegun, drainedOK>>
+                   lateBegun, drainedOK, fatal>>
 
 TSFlush(p) ==
     /\ SenderLike(p) /\ pc[p] = "t.flush"
     /\ NoFinish
     /\ UNCHANGED <<stack, queue, waitq, running, closed, closeErr, werr, ctxDone, tclosed, tcloses,
                    tlog, batch, nexts, mutex, mwait, polls, carg, inactives, actives, reads, readsLeft,
-                   rinflight, faults, cancelled, acc, begun, before, accAtClose, closeRet, lateBegun, drainedOK>>
+                   rinflight, faults, cancelled, acc, begun, before, accAtClose, closeRet, lateBegun, drainedOK, fatal>>
     /\ IF tclosed /\ flushed < Len(tlog)
        THEN /\ UNCHANGED flushed /\ pc' = PcAfter(One(p, "s.fail"))
        ELSE /\ flushed' = Len(tlog) /\ pc' = PcAfter(One(p, "s.release"))
@@ -400,6 +401,7 @@ TSFlushFail(p) ==
     /\ UNCHANGED <<stack, queue, waitq, running, closed, closeErr, werr, ctxDone, tclosed, tcloses,
                    tlog, flushed, batch, nexts, mutex, mwait, polls, carg, inactives, actives, reads,
                    readsLeft, rinflight, cancelled, acc, begun, before, accAtClose, closeRet, lateBegun, drainedOK>>
+    /\ fatal' = (fatal \/ closed = 0)
 
 SRelease(p) ==
     /\ pc[p] = "s.release"
@@ -409,7 +411,7 @@ SRelease(p) ==
     /\ UNCHANGED <<stack, queue, waitq, closed, closeErr, werr, ctxDone, tclosed, tcloses, tlog,
                    flushed, batch, nexts, mutex, mwait, polls, carg, inactives, actives, reads,
                    readsLeft, rinflight, faults, cancelled, acc, begun, before, accAtClose, closeRet,
-                   lateBegun, drainedOK>>
+                   lateBegun, drainedOK, fatal>>
 
 SRecheck(p) ==
     /\ pc[p] = "s.recheck"
@@ -420,7 +422,7 @@ SRecheck(p) ==
     /\ UNCHANGED <<queue, waitq, running, closed, closeErr, werr, ctxDone, tclosed, tcloses, tlog,
                    flushed, batch, nexts, mutex, mwait, polls, carg, inactives, actives, reads,
                    readsLeft, rinflight, faults, cancelled, acc, begun, before, accAtClose, closeRet,
-                   lateBegun, drainedOK>>
+                   lateBegun, drainedOK, fatal>>
 
 SRecas(p) ==
     /\ pc[p] = "s.recas"
@@ -431,7 +433,7 @@ SRecas(p) ==
     /\ UNCHANGED <<queue, waitq, closed, closeErr, werr, ctxDone, tclosed, tcloses, tlog,
                    flushed, batch, nexts, mutex, mwait, polls, carg, inactives, actives, reads,
                    readsLeft, rinflight, faults, cancelled, acc, begun, before, accAtClose, closeRet,
-                   lateBegun, drainedOK>>
+                   lateBegun, drainedOK, fatal>>
 
 \* recover path of writeOnce: release ownership, then Close(err) (tail call)
 SFail(p) ==
@@ -443,7 +445,7 @@ SFail(p) ==
     /\ UNCHANGED <<stack, queue, waitq, closed, closeErr, werr, ctxDone, tclosed, tcloses, tlog,
                    flushed, batch, nexts, mutex, mwait, polls, inactives, actives, reads,
                    readsLeft, rinflight, faults, cancelled, acc, begun, before, accAtClose, closeRet,
-                   lateBegun, drainedOK>>
+                   lateBegun, drainedOK, fatal>>
 
 -----------------------------------------------------------------------------
 (* Close                                                                     *)
@@ -453,7 +455,7 @@ CCas(p) ==
     /\ NoFinish
     /\ UNCHANGED <<queue, waitq, running, closeErr, ctxDone, tclosed, tcloses, tlog, flushed, batch,
                    nexts, mutex, mwait, carg, inactives, actives, reads, readsLeft, rinflight, faults,
-                   cancelled, acc, begun, before, lateBegun, drainedOK>>
+                   cancelled, acc, begun, before, lateBegun, drainedOK, fatal>>
     /\ IF closed = 0
        THEN /\ closed' = 1 /\ werr' = carg[p] /\ accAtClose' = okset
             /\ polls' = [polls EXCEPT ![p] = 0]
@@ -468,7 +470,7 @@ CPoll(p) ==
     /\ NoFinish
     /\ UNCHANGED <<queue, waitq, closed, closeErr, werr, ctxDone, tclosed, tcloses, tlog, flushed,
                    nexts, mutex, mwait, carg, inactives, actives, reads, readsLeft, rinflight, faults,
-                   cancelled, acc, begun, before, accAtClose, closeRet, lateBegun>>
+                   cancelled, acc, begun, before, accAtClose, closeRet, lateBegun, fatal>>
     /\ IF FixDrain
        THEN IF running = 0
             THEN /\ running' = 1
@@ -496,7 +498,7 @@ CSetErr(p) ==
     /\ UNCHANGED <<stack, queue, waitq, running, closed, werr, ctxDone, tclosed, tcloses, tlog,
                    flushed, batch, nexts, mutex, mwait, polls, carg, inactives, actives, reads,
                    readsLeft, rinflight, faults, cancelled, acc, begun, before, accAtClose, closeRet,
-                   lateBegun, drainedOK>>
+                   lateBegun, drainedOK, fatal>>
 
 \* transport.Close: a reader blocked in Read fails; channel already closed => mute
 TClose(p) ==
@@ -510,7 +512,7 @@ TClose(p) ==
     /\ UNCHANGED <<stack, queue, waitq, running, closed, closeErr, werr, ctxDone, tlog,
                    flushed, batch, nexts, mutex, mwait, polls, carg, inactives, actives, reads,
                    readsLeft, faults, cancelled, acc, begun, before, accAtClose, closeRet,
-                   lateBegun, drainedOK>>
+                   lateBegun, drainedOK, fatal>>
 
 \* cancel the channel context: every writer parked in select returns
 CCancel(p) ==
@@ -524,7 +526,7 @@ CCancel(p) ==
     /\ UNCHANGED <<stack, queue, running, closed, closeErr, werr, tclosed, tcloses, tlog,
                    flushed, batch, nexts, mutex, mwait, polls, carg, inactives, actives, reads,
                    readsLeft, rinflight, faults, cancelled, acc, begun, before, accAtClose, closeRet,
-                   lateBegun, drainedOK>>
+                   lateBegun, drainedOK, fatal>>
 
 CInactive(p) ==
     /\ pc[p] = "c.inactive"
@@ -535,7 +537,7 @@ CInactive(p) ==
     /\ UNCHANGED <<queue, waitq, running, closed, closeErr, werr, ctxDone, tclosed, tcloses, tlog,
                    flushed, batch, nexts, mutex, mwait, polls, carg, actives, reads,
                    readsLeft, rinflight, faults, cancelled, acc, begun, before, accAtClose,
-                   lateBegun, drainedOK>>
+                   lateBegun, drainedOK, fatal>>
 
 -----------------------------------------------------------------------------
 (* serveChannel and the read loop                                            *)
@@ -547,7 +549,7 @@ VStart ==
     /\ UNCHANGED <<stack, queue, waitq, running, closed, closeErr, werr, ctxDone, tclosed, tcloses,
                    tlog, flushed, batch, nexts, mutex, mwait, polls, carg, inactives, actives, reads,
                    readsLeft, rinflight, faults, cancelled, acc, begun, before, accAtClose, closeRet,
-                   lateBegun, drainedOK>>
+                   lateBegun, drainedOK, fatal>>
 
 RActive ==
     /\ pc["R"] = "r.active"
@@ -559,7 +561,7 @@ RActive ==
     /\ UNCHANGED <<stack, queue, waitq, running, closed, closeErr, werr, ctxDone, tclosed, tcloses,
                    tlog, flushed, batch, nexts, mutex, mwait, polls, carg, inactives, reads,
                    readsLeft, rinflight, faults, cancelled, acc, begun, before, accAtClose, closeRet,
-                   lateBegun, drainedOK>>
+                   lateBegun, drainedOK, fatal>>
 
 RCheck ==
     /\ pc["R"] = "r.check"
@@ -572,14 +574,14 @@ RCheck ==
     /\ UNCHANGED <<stack, queue, waitq, running, closed, closeErr, werr, ctxDone, tclosed, tcloses,
                    tlog, flushed, batch, nexts, mutex, mwait, polls, inactives, actives, reads,
                    readsLeft, rinflight, faults, cancelled, acc, begun, before, accAtClose, closeRet,
-                   lateBegun, drainedOK>>
+                   lateBegun, drainedOK, fatal>>
 
 TRead ==
     /\ pc["R"] = "t.read"
     /\ NoFinish
     /\ UNCHANGED <<stack, queue, waitq, running, closed, closeErr, werr, ctxDone, tclosed, tcloses,
                    tlog, flushed, batch, nexts, mutex, mwait, polls, carg, inactives, actives,
-                   faults, cancelled, acc, begun, before, accAtClose, closeRet, lateBegun, drainedOK>>
+                   faults, cancelled, acc, begun, before, accAtClose, closeRet, lateBegun, drainedOK, fatal>>
     /\ IF tclosed
        THEN /\ pc' = PcAfter(One("R", "r.check")) /\ UNCHANGED <<reads, readsLeft, rinflight>>
        ELSE IF readsLeft > 0
@@ -603,6 +605,7 @@ TReadFail ==
                    tlog, flushed, batch, nexts, mutex, mwait, polls, inactives, actives, reads,
                    readsLeft, rinflight, cancelled, acc, begun, before, accAtClose, closeRet,
                    lateBegun, drainedOK>>
+    /\ fatal' = (fatal \/ closed = 0)
 
 -----------------------------------------------------------------------------
 Step(p) ==
@@ -701,7 +704,13 @@ C05_CloseRetImpliesClosed == closeRet => closed = 1
 C05_WinnerDone == (Len(inactives) = 1) => (ctxDone /\ tclosed)
 C05_ReadsSequential == rinflight <= 1
 
+\* C07: once a sender write/flush or a read failed on an open channel (fatal = TRUE) and everything
+\* has come to rest, the channel is closed, with that error unless a Close call won before
+C07_FaultCloses ==
+    (fatal /\ Quiesced) => (closed = 1 /\ tclosed /\ Len(inactives) = 1 /\ pc["R"] \in {"done", "none"})
+
 \* liveness (FairSpec)
+C07_FaultEventuallyCloses == fatal ~> (tclosed /\ pc["R"] \in {"done", "none"})
 AllWritersDone == \A w \in Writers : pc[w] = "done"
 Delivered == okset \subseteq FlushedSet
 C02_Live == (AllWritersDone /\ closed = 0) ~> (Delivered \/ closed = 1 \/ ~NoFaultYet)
